@@ -535,8 +535,13 @@ pub fn code(a: &Args) -> Report {
                 let n = seen.entry(s.clone()).or_insert(0);
                 *n += 1;
                 let k = *n - 1;
-                full.push(full_all || k == rot % PER_SHAPE.max(1));
-                keep.push(a.tier == Tier::Thorough || (k >= rot && k < rot + PER_SHAPE) || k == 0);
+                // (thorough: the full input family for up to 96 definitions of every shape, all 256 next
+                // bytes for the first 8 of them; every other definition gets the transition cover. The
+                // unreduced run - everything for every one of 2.5 M definitions - takes hours and is
+                // available with VG_CODE_ALL=1)
+                let all = std::env::var("VG_CODE_ALL").is_ok();
+                full.push(if a.tier == Tier::Thorough { (full_all && k < 8) || all } else { k == rot % PER_SHAPE.max(1) });
+                keep.push(if a.tier == Tier::Thorough { k < 96 || all } else { (k >= rot && k < rot + PER_SHAPE) || k == 0 });
             }
         }
     }
@@ -556,7 +561,7 @@ pub fn code(a: &Args) -> Report {
     };
     rep.observe("distinct_graph_shapes", seen.len() as u64);
     rep.observe("accepted_definitions_in_family", seen.values().map(|v| *v as u64).sum());
-    rep.bounds.insert("family".into(), format!("{:?}: the Layer-1 family F(k) + curated set, both code generators{}", a.tier, if a.tier == Tier::Quick { "; quick tier: the full input family for at most 12 definitions of every distinct graph shape (VERIF_SEED rotates which), the transition cover for every other definition" } else { "" }));
+    rep.bounds.insert("family".into(), format!("{:?}: the Layer-1 family F(k) + curated set, both code generators{}", a.tier, if a.tier == Tier::Quick { "; quick tier: the full input family for at most 12 definitions of every distinct graph shape (VERIF_SEED rotates which), the transition cover for every other definition" } else { "; thorough tier: the full input family for at most 96 definitions of every distinct graph shape, all 256 next bytes for the first 8 of them, the transition cover for every other definition (VG_CODE_ALL=1: everything for every definition)" }));
     rep.bounds.insert(
         "inputs".into(),
         format!(
